@@ -252,6 +252,11 @@ impl Monitor for C02 {
         self.n_gen + self.n_comp + self.n_shape + self.n_samples
     }
 
+    fn cpu_budget_s(&self) -> u64 {
+        // worst legitimate cost: ~20 CPU-s per analysis of 400 KB of two-symbol noise (chain walks of 4096)
+        self.tier.pick(120, 400)
+    }
+
     fn run_case(&mut self, k: u64, ctx: &mut Ctx) {
         let max_plain = self.tier.pick(200_000, 500_000);
         let (label, base, mut r) = if k < self.n_gen {
